@@ -200,15 +200,7 @@ func (g *Gen) verifyFunc(fc *FuncContract) (vc *VC) {
 		}
 	}
 	for _, inv := range fc.Invs {
-		found := false
-		for _, li := range fr.loops {
-			for _, x := range li.invs {
-				if x == inv {
-					found = true
-				}
-			}
-		}
-		if !found {
+		if !g.seenCall[inv] {
 			g.addObligation(&Obligation{Name: fmt.Sprintf("%s.loop[%s].binding.%s", fc.Key, inv.Anchor, inv.Name), Func: fc.Key, Kind: "binding", Props: inv.Props,
 				Guard: "true", Goal: "false", Static: true, Status: "undischarged", Src: inv.Src,
 				Output: "no loop matches this invariant's anchor", Pos: fmt.Sprintf("%s:%d", inv.File, inv.Line)})
